@@ -264,6 +264,8 @@ func (e *Exec) load(t types.Type, p Value, instr ssa.Instruction) Value {
 			panic(errorf("read of uninitialised global %s (package init not modelled)", po.What))
 		}
 		return copyVal(v)
+	case *UFPtr:
+		return e.ufLoad(p)
 	case *SymPtr:
 		// ite-chain over all candidate cells
 		var res *Term
